@@ -33,7 +33,7 @@ TReport(e) ==
         kn == /\ d0 = "digest-differs-across-seeds" /\ strict = ""
               /\ KnownPromotionOrder(T.trigger[e.s], [d |-> known[e.s], m |-> ref[e.s].m, c |-> ref[e.s].c], e)
     IN IF d0 # "" /\ ~kn THEN Skip(d0)
-       ELSE /\ IF e.e = "emit" THEN EmitAny(e.p, e.s, e.d) ELSE TranspileAny(e.p, e.s, e.d)
+       ELSE /\ IF e.e = "emit" THEN (IF e.keep THEN EmitKeepAny(e.p, e.s, e.d) ELSE EmitAny(e.p, e.s, e.d)) ELSE TranspileAny(e.p, e.s, e.d)
             /\ ref' = [ref EXCEPT ![e.s] = IF known[e.s] = None THEN [m |-> e.m, c |-> e.c] ELSE @]
             /\ found' = IF kn THEN found \cup {"promotion-order-hash-seed"} ELSE found
             /\ bad' = ""
